@@ -102,6 +102,10 @@ def obligations(tier):
             n = 7
             obs.append(Ob(f"shared-timeframe T2/T2, A carries {extra_a}, gapped stream: A={spec_name(('ind', a, akw))} B={spec_name(('ind', b, bkw))}/n={n}",
                           dict(A=[a, dict(akw, timeframe="T2", **extra_a)], B=[b, dict(bkw, timeframe="T2")], n=n, gap=True), CFG, weight=60, budget_s=900))
+    # the Hexital itself collapses to a timeframe (members without one of their own follow it): a member registered late,
+    # purged, recalculated or removed next to another one
+    for (a, akw), (b, bkw) in ((("SMA", dict(period=2)), ("EMA", dict(period=2))), (("EMA", dict(period=2)), ("SMA", dict(period=2))), (("ATR", dict(period=2)), ("BBANDS", dict(period=2))), (("MACD", dict(fast_period=2, slow_period=3, signal_period=2)), ("WMA", dict(period=2)))):
+        obs.append(Ob(f"hexital-level timeframe T2: A={spec_name(('ind', a, akw))} B={spec_name(('ind', b, bkw))}/n=11", dict(A=[a, akw], B=[b, bkw], n=11, hextf="T2"), CFG, weight=60, budget_s=900))
     # members handed over as configuration dicts that SHARE a nested object (one 'args' dict reused for two analysis
     # members, each adding its own keyword): what one member is told must not leak into the other
     for (fa, ka), (fb, kb), common in ((("rising", dict(length=2)), ("falling", dict(length=3)), dict(indicator="close")), (("highest", dict(length=3)), ("lowest", dict(length=2)), dict(indicator="high")),
@@ -145,7 +149,9 @@ def own(ctx, ind, alone_snapshot):
 
 
 def run(ctx, P):
-    _, _, Candle, _, Hexital = lib()
+    _, _, Candle, _, Hexital_ = lib()
+    level = dict(timeframe=P["hextf"]) if P.get("hextf") else {}
+    Hexital = lambda name, candles, members: Hexital_(name, candles, members, **level)      # (a Hexital-level timeframe for some pairs)
     (a, akw), (b, bkw), n = P["A"], P["B"], P["n"]
     cs_all = mk_candles(ctx, n + 1)
     if P.get("gap"):
@@ -215,9 +221,16 @@ def run(ctx, P):
     hx = Hexital("hx", clone(cs), [mk(b, bkw)])
     hx.calculate()
     hx.add_indicator(mk(a, akw))
+    check("after add_indicator(A), before any calculate", hx)        # merely registering A changes nothing for B
+    ctx.equal("B's readings on the candles the Hexital hands out, after add_indicator(A)", [c.indicators.get(bname) for c in hx.candles(hx.indicator(bname).timeframe)], ref_list)
     hx.calculate()
     check("after add_indicator(A)+calculate", hx)
     ctx.equal("A.as_list when added later", hx.indicator(aname).as_list(), a_ref)
+    if a == "ADX":
+        return          # (one more candle through ADX multiplies its value paths)
+    hx.append(clone([later])[0])
+    ctx.equal("B after add_indicator(A)+append", hx.indicator(bname).as_list(), ref_later)
+    ctx.equal("B's readings on the candles the Hexital hands out, after add_indicator(A)+append", [c.indicators.get(bname) for c in hx.candles(hx.indicator(bname).timeframe)], ref_later)
 
 
 META = dict(
